@@ -83,12 +83,16 @@ def c09(ctx: Ctx):
     else:
         # D (drift guard): the models of the pinned code must still deviate from the contract
         ctx.tlc("MC_C09", "MC_C09_pinned.cfg", expect_violation=True, label="D pinned models deviate (expected)")
+        # thorough = quick's universe with finer slices and wider bounds; for the same VERIF_SEED it is a superset of quick
+        # (same cores, Slice a divisor of quick's, same hash).  VERIF_C09_FULL=1 (registered nowhere) runs the full products:
+        # every document of the 2x2 universe under all 11 server shapes emitted, design check on every document of every run.
+        full = "_full" if os.environ.get("VERIF_C09_FULL") else ""
         runs = [("MC_C09_quick.cfg", "exhaustive core", None),
                 ("MC_C09_quick_srv.cfg", "server lists / server variables (1-template core + slice)", None)] if tier == "quick" else [
-            ("MC_C09_thorough.cfg", "exhaustive core", None),
-            ("MC_C09_thorough_srv.cfg", "server lists / server variables (design check on all, sliced emission)", None),
-            ("MC_C09_thorough_t3.cfg", "exhaustive, 3 templates (sliced emission)", None),
-            ("MC_C09_thorough_l3.cfg", "exhaustive, 3 segments (sliced emission)", None),
+            ("MC_C09_thorough%s.cfg" % full, "2 templates x 2 segments, all universes x 11 server shapes (design check on all)", None),
+            ("MC_C09_thorough_srv%s.cfg" % full, "server lists / server variables", None),
+            ("MC_C09_thorough_t3%s.cfg" % full, "3 templates (sliced)", None),
+            ("MC_C09_thorough_l3%s.cfg" % full, "3 segments (sliced)", None),
             # -simulate checks (and so emits) every successor it generates, not only the one it follows: 2 walks per
             # worker already yield several hundred distinct documents
             ("MC_C09_sim.cfg", "simulation, 3 templates x 3 segments", "num=2"),
@@ -104,9 +108,16 @@ def c09(ctx: Ctx):
             log("[gen] %s: %d cases" % (what, n))
             ctx.extra["generator_constants"][cfg] = consts
         ctx.exhaustive = True
-        ctx.extra["exhaustive_scope"] = ("every BFS run completed; all documents of MC_C09_%s.cfg within (CoreLen, CoreT, CoreServers) are run "
-                                         "against the code, the others design-checked by TLC and run as a seeded 1/Slice sample "
-                                         "(thorough: plus a -simulate sample of 3 templates x 3 segments)" % tier)
+        ctx.extra["exhaustive_scope"] = (
+            "every BFS run completed.  quick: all documents of <= 2 templates x <= 2 segments design-checked by TLC; run against the code: the "
+            "core (plain families under no / a relative server, mixed / enc under none, root under none and relative) + a seeded 1/8 "
+            "slice of the rest, and of the 25 server-list / server-variable shapes every 1-template document + a seeded 1/48 slice.  "
+            "thorough adds, for the same seed (superset: same cores and hash, slice moduli that divide quick's): the mixed / enc / root "
+            "universes under all 11 server shapes and with POST-only templates (design-checked on every document), a 1/4 slice instead "
+            "of 1/8, a 1/12 slice instead of 1/48 of the server-list / server-variable documents (+ POST-only templates there), a "
+            "1/16 slice of 3-template families, a 1/25 slice of 3-segment templates, and a -simulate sample of 3 templates x 3 "
+            "segments; beyond the 2x2 run the design check covers the emitted documents only.  VERIF_C09_FULL=1 (not registered) "
+            "emits the whole 2x2 product and design-checks every document of every run")
         with open(cases, "a") as f:
             for w in witnesses():
                 f.write(json.dumps(w) + "\n")
